@@ -185,6 +185,12 @@ def check_desc(res, model, desc, rng, tag, channel_b=False):
                     res.corr_disagreements += 1
                     res.violation("correspondence", f"GetMantleDens: rendered {ws(mm.group(1)) if mm else None!r} vs model {want_m!r}", case)
                 res.count("helper statements compared with the model", len(melems) + 1)
+        # GetHNuclei is the hydrogen total of the same helper (and 0.0 when hydrogen is no element of the network)
+        mh = re.search(r"double GetHNuclei\(double \*y\) \{(.*?)\n\}", src, re.S)
+        body_h = " ".join(mh.group(1).split()) if mh else None
+        if body_h != "#ifdef IDX_ELEM_H return GetElementAbund(y, IDX_ELEM_H); #else return 0.0; #endif":
+            res.corr_disagreements += 1
+            res.violation("correspondence", f"GetHNuclei is not written as the hydrogen element total of GetElementAbund: {body_h!r}", case)
         atoms = {s.name for s in a.species if s.name in ELEMENTS}
         if set(found) != atoms:
             res.violation("oracle", f"GetElementAbund handles {sorted(found)} but the atomic species are {sorted(atoms)}", case)
